@@ -56,6 +56,7 @@ def run(ctx):
             ok = len(vs) == 1
             if ok:
                 v = vs[0].body if isinstance(vs[0], ast.IfExp) else vs[0]
+                v = X.expand_single_defs(v, defs, keep={ev})  # `e.start.t * time_multiplier` with `time_multiplier = T[i]`
                 ok = isinstance(v, ast.BinOp) and isinstance(v.op, ast.Mult)
                 if ok:
                     sides = {norm(v.left): v.left, norm(v.right): v.right}
@@ -114,7 +115,7 @@ def run(ctx):
                     if lits and guard is None:
                         guard = lits[0]
                 p = getattr(p, "_parent", None)
-            out.append((guard, val))
+            out.append((guard, X.expand_single_defs(val, defs)))
         return out
 
     part_index = {norm(l.target.elts[0]) for l in own_nodes(f.node) if isinstance(l, ast.For) and isinstance(l.iter, ast.Call) and norm(l.iter.func) == "enumerate"
